@@ -338,6 +338,57 @@ fn timing_universe(ctx: &Ctx) {
     });
 }
 
+/// The address seam: the helper binary `c01_phase` runs difficulty / strains / performance / gradual on long maps (600
+/// sliders, 900- and 1000-object motif maps, the four fixtures, all reachable modes) under every placement phase
+/// {0, 8, ..., 56} of its heap buffers modulo 64; all digests must equal those of phase 0. One process per map.
+fn address_phase_universe(ctx: &Ctx) {
+    if ctx.worker.is_some() {
+        return;
+    }
+    let exe = std::env::current_exe().expect("exe").with_file_name("c01_phase");
+    let count: u64 = match std::process::Command::new(&exe).arg("count").output() {
+        Ok(o) if o.status.success() => String::from_utf8_lossy(&o.stdout).trim().parse().unwrap_or(0),
+        other => {
+            ctx.machinery_error(format!("cannot run {}: {other:?}", exe.display()));
+            return;
+        }
+    };
+    // (a universe of 7 cases is walked by one thread: run the seven processes side by side first)
+    let outputs: Vec<std::io::Result<std::process::Output>> = std::thread::scope(|s| {
+        let hs: Vec<_> = (0..count).map(|i| { let exe = &exe; s.spawn(move || std::process::Command::new(exe).arg(i.to_string()).output()) }).collect();
+        hs.into_iter().map(|h| h.join().expect("child runner")).collect()
+    });
+    ctx.universe("address-phase/8-phases-mod-64", count, |idx, l| {
+        let o = &outputs[idx as usize];
+        let Ok(o) = o else {
+            l.ctx.machinery_error(format!("cannot run {} {idx}", exe.display()));
+            return;
+        };
+        let text = String::from_utf8_lossy(&o.stdout).into_owned();
+        let done = text.lines().find(|x| x.starts_with("PHASE-DONE"));
+        if !o.status.success() || done.is_none() {
+            // the subject crashing under a shifted heap is a finding about the subject only if it reproduces: say so
+            l.violation("address_phase_crash", || format!("map #{idx}: the run under shifted heap placement ended with {:?} before completing\n{}", o.status, text.chars().take(600).collect::<String>()));
+            return;
+        }
+        let num = |k: &str| done.and_then(|d| d.split('\t').find_map(|w| w.strip_prefix(k))).and_then(|v| v.parse::<u64>().ok()).unwrap_or(0);
+        l.states(8);
+        l.checked(num("comparisons="));
+        l.nontrivial();
+        if l.want_sample() {
+            let mut s = J::obj();
+            s.set("universe", J::s("address-phase/8-phases-mod-64"));
+            s.set("index", J::i(idx));
+            s.set("comparisons", J::i(num("comparisons=")));
+            l.sample(s);
+        }
+        if num("diffs=") > 0 {
+            let lines: Vec<&str> = text.lines().filter(|x| x.starts_with("PHASE-DIFF")).collect();
+            l.violation("address_dependent", || format!("results depend on where the heap places a buffer (alignment phase modulo 64 of every allocation >= 64 bytes):\n{}", lines.join("\n")));
+        }
+    });
+}
+
 fn main() {
     // fresh-process table mode: `--table` prints "<op index> <digest>" for the op given by --op
     let args: Vec<String> = std::env::args().collect();
@@ -352,10 +403,11 @@ fn main() {
     }
 
     let ctx = Ctx::from_env("C01");
-    ctx.rule("universe 'bpm-hash-order': every timing set of <= 4 uninherited lines over 4 beat lengths (one rounding onto another) x gap patterns x 3 tail lengths; all k! iteration orders of the k distinct beat lengths through the seam, plus two calls under the hash map's own order; bpm() must be bit-identical. universe 'histories': every history (repetitions allowed) of depth <= 3 over the op pool (decode, bpm, convert x 3 entry points, difficulty, strains, performance, gradual difficulty / performance walks for 4 settings incl. Random with and without seed, mania under Invert / HoldOff / both on a map with chords, lock-step walks of two calculators, builder reuse) on 6 maps; oracle = each op's result digest equals the digest the same op yields as the only op of a fresh process (two fresh processes per op must agree with each other), maps passed by reference unchanged; non-trivial = more than one distinct beat length / history of length >= 2");
+    ctx.rule("universe 'bpm-hash-order': every timing set of <= 4 uninherited lines over 4 beat lengths (one rounding onto another) x gap patterns x 3 tail lengths; all k! iteration orders of the k distinct beat lengths through the seam, plus two calls under the hash map's own order; bpm() must be bit-identical. universe 'address-phase': difficulty / strains / performance / gradual on 3 long synthetic maps (600 sliders, 900 and 1000 objects) and the 4 fixtures, all reachable modes, 2 settings, under all 8 placement phases {0,8,..,56} modulo 64 of every heap buffer >= 64 bytes (helper binary with a phase-shifting global allocator): digests must equal those of phase 0. universe 'histories': every history (repetitions allowed) of depth <= 3 over the op pool (decode, bpm, convert x 3 entry points, difficulty, strains, performance, gradual difficulty / performance walks for 4 settings incl. Random with and without seed, mania under Invert / HoldOff / both on a map with chords, lock-step walks of two calculators, builder reuse) on 6 maps; oracle = each op's result digest equals the digest the same op yields as the only op of a fresh process (two fresh processes per op must agree with each other), maps passed by reference unchanged; non-trivial = more than one distinct beat length / history of length >= 2");
     ctx.assume("the fresh-process reference table is produced by this same checker binary started once per op and repetition");
 
     timing_universe(&ctx);
+    address_phase_universe(&ctx);
 
     let rich = !ctx.quick();
     let world = World::new();
